@@ -96,6 +96,7 @@ type Engine struct {
 	cs             *Contracts
 	funcs          map[string]*ssa.Function // by contract-style name
 	readOwnedCache map[string]bool
+	renameNotes    []string
 	loopsHit       map[string]bool
 	calledFns      map[*ssa.Function]bool
 	replayInfo     map[string]*ReplayInfo
